@@ -344,3 +344,35 @@ PROPS['C14'] = dict(
     assumptions=_CONC_ASSUME + _TCP_ASSUME[:1] + ["deadlock freedom is argued for the lock graph only (sessionLock before the send mutex, "
                                                    "never the reverse); I/O that never returns blocks Disconnect by design"],
 )
+
+_WS_RULE = ("wsclient suite: operation sequences (2..10 ops) on client.WSClient over a fake factory and a fake underlying websocket "
+            "connection: Connect / Disconnect / Reconnect with dial failures and ws.NewConnection failures, Send of every message kind "
+            "and SendRaw (1 byte .. 5 KB) with and without a failing frame write, and the background reader ending with a transport "
+            "error / close 1006 / close 1001 / close 1000 at chosen moments (the harness waits for the listen.start / listen.done "
+            "observation points); every frame handed to the underlying connection and every underlying Close is logged. wsgate: four "
+            "schedule-controlled scenarios holding Send / SendRaw / the connect goroutine at a verifAt point while Disconnect or "
+            "Reconnect runs (in a child process). wsconc: 5 goroutines x 60 random operations, judged on panics, readers/writers per "
+            "connection, closes and close frames, and under the race detector. distinct = distinct op sequence; non-trivial = all")
+_WS_SUITES = [dict(suite='wsclient', n=dict(quick=1500, thorough=40000), shards=dict(quick=1, thorough=16), trivial=r'^-$'),
+              dict(suite='wsgate', n=dict(quick=1, thorough=1), shards=dict(quick=1, thorough=1), trivial=r'^-$'),
+              dict(suite='wsconc', n=dict(quick=6, thorough=100), shards=dict(quick=1, thorough=8), trivial=r'^-$')]
+
+PROPS['C17'] = dict(
+    translator=True,
+    lean_modules=['FluentVerif.Props.C17', 'FluentVerif.Conc.Lockset', 'FluentVerif.Tie.Conc'],
+    theorems=['FV.WsC.C17_one_frame', 'FV.WsC.C17_send_one_frame', 'FV.WsC.C17_failed_write', 'FV.WsC.C17_unencodable',
+              'FV.WsC.C17_sticky', 'FV.WsC.C17_sticky_set', 'FV.WsC.C17_sticky_persists', 'FV.WsC.C17_reconnect_clears',
+              'FV.WsC.C17_no_session', 'FV.WsC.C17_closed_session', 'FV.WsC.C17_connect_active', 'FV.WsC.C17_failed_reconnect',
+              'FV.WsC.C17_disconnect', 'FV.Tie.wsClient_lockset', 'FV.Tie.C17_race_free'],
+    suites=_WS_SUITES,
+    race_suites=[('wsconc', dict(quick=4, thorough=40))],
+    rule=_WS_RULE,
+    explanation="Sequential model of WSClient (session, sticky error, per connection: frames, closes, closed/error state; the reader's "
+                "end is an environment step): C17_one_frame (success = exactly one more binary frame with exactly the bytes, nothing on "
+                "other connections), C17_sticky*, C17_no_session, C17_connect_active, C17_failed_reconnect, C17_unencodable / "
+                "C17_failed_write (C09's websocket half). Concurrent: C17_race_free = check_sound on the regenerated graph of "
+                "ws_client.go incl. the spawned goroutines (every access to session / err under its lock). Correspondence: per "
+                "operation result + frames + closes + dials equal the model's; gated schedules and concurrent runs as search.",
+    assumptions=_CONC_ASSUME + ["ws.Connection is used through its observable behaviour (frames, underlying close, Closed()); its own "
+                                "close protocol is C15/C16"],
+)
